@@ -11,7 +11,8 @@
               root tags, as given) then one event per call
               (41 SubScope, 42 Tagged, 43 Timer, 44 Record, 45 pass, 46 Start,
               47 Histogram, 48 histogram Start, 49 Stop, 50 NewCall, 51 Exec, 52 Close, 53 an execution begins (Exec has
-              entered f), 54 it ends (f returns));
+              entered f), 54 it ends (f returns), 55 Timer whose
+              allocation the cached reporter refused (it panicked, recovered));
    observed = per call: what the reporter was called with during that call
               (plain / cached; the order inside a report pass is that of Go map
               iteration, so a pass is compared as a multiset) or the complete
@@ -49,6 +50,7 @@ Definition op_of_ev (e : ev) : op :=
       else if k =? 50 then OCall h n
       else if k =? 51 then OExec h (match r with d :: _ => negb (d =? 0) | [] => false end)
       else if k =? 52 then OClose h
+      else if k =? 55 then OTimerRefused h n
       else if k =? 53 then OBegin h
       else if k =? 54 then OEnd h (match r with d :: _ => negb (d =? 0) | [] => false end)
       else OPass
